@@ -275,3 +275,92 @@ Proof.
   - destruct (p x); [constructor|]; assumption.
   - destruct (p y); [constructor|]; assumption.
 Qed.
+
+Lemma Subseq_In {T} (a b : list T) x : Subseq a b -> In x a -> In x b.
+Proof.
+  induction 1; intros Hin; [destruct Hin| |].
+  - destruct Hin as [->|Hin]; [left; reflexivity|right; auto].
+  - right; auto.
+Qed.
+
+Definition by_owner (owner : N -> N) (G : nat) (l : list N) : list (list N) :=
+  map (fun g => filter (fun i => owner i =? N.of_nat g) l) (seq 0 G).
+
+Lemma per_owner_ok_seq owner lines reps : Subseq lines reps -> forall n g0,
+  per_owner_ok owner (N.of_nat g0) (map (fun g => filter (fun i => owner i =? N.of_nat g) reps) (seq g0 n)) lines = true.
+Proof.
+  intros Hs. induction n as [|n IH]; intros g0; [reflexivity|].
+  cbn [seq map per_owner_ok]. apply andb_true_intro. split.
+  - apply subseq_b_complete. apply Subseq_filter. exact Hs.
+  - replace (N.of_nat g0 + 1) with (N.of_nat (S g0)) by lia. apply IH.
+Qed.
+
+Lemma total_len_cons0 (a : list N) r : total_len (a :: r) = (length a + total_len r)%nat.
+Proof. reflexivity. Qed.
+
+Lemma total_len_cons (p : nat -> N -> bool) x l gs :
+  total_len (map (fun g => filter (p g) (x :: l)) gs) =
+  (length (filter (fun g => p g x) gs) + total_len (map (fun g => filter (p g) l) gs))%nat.
+Proof.
+  induction gs as [|g gs IH]; [reflexivity|].
+  rewrite !map_cons, !total_len_cons0, IH.
+  change (filter (p g) (x :: l)) with (if p g x then x :: filter (p g) l else filter (p g) l).
+  change (filter (fun g0 => p g0 x) (g :: gs)) with (if p g x then g :: filter (fun g0 => p g0 x) gs else filter (fun g0 => p g0 x) gs).
+  destruct (p g x); cbn [length]; lia.
+Qed.
+
+Ltac bool_lia := repeat match goal with
+  | H : (_ && _) = true |- _ => apply andb_prop in H; destruct H
+  | H : (_ && _) = false |- _ => apply andb_false_iff in H; destruct H
+  | H : (_ <=? _)%nat = true |- _ => apply Nat.leb_le in H
+  | H : (_ <=? _)%nat = false |- _ => apply Nat.leb_gt in H
+  | H : (_ <? _)%nat = true |- _ => apply Nat.ltb_lt in H
+  | H : (_ <? _)%nat = false |- _ => apply Nat.ltb_ge in H
+  end; lia.
+
+Lemma count_owner_seq (v : N) : forall n a,
+  length (filter (fun g => v =? N.of_nat g) (seq a n)) =
+  if (a <=? N.to_nat v)%nat && (N.to_nat v <? a + n)%nat then 1%nat else 0%nat.
+Proof.
+  induction n as [|n IH]; intros a.
+  - cbn [seq filter length]. destruct ((a <=? N.to_nat v)%nat && (N.to_nat v <? a + 0)%nat) eqn:E; [bool_lia|reflexivity].
+  - cbn [seq filter]. destruct (N.eqb_spec v (N.of_nat a)) as [->|Hne].
+    + cbn [length]. rewrite IH. rewrite Nat2N.id.
+      destruct ((S a <=? a)%nat && (a <? S a + n)%nat) eqn:E1; [bool_lia|].
+      destruct ((a <=? a)%nat && (a <? a + S n)%nat) eqn:E2; [reflexivity|bool_lia].
+    + rewrite IH.
+      assert (N.to_nat v <> a) by (intros E; apply Hne; lia).
+      destruct ((S a <=? N.to_nat v)%nat && (N.to_nat v <? S a + n)%nat) eqn:E1;
+        destruct ((a <=? N.to_nat v)%nat && (N.to_nat v <? a + S n)%nat) eqn:E2; try reflexivity; bool_lia.
+Qed.
+
+Lemma total_len_by_owner owner G l : Forall (fun x => owner x < N.of_nat G) l -> total_len (by_owner owner G l) = length l.
+Proof.
+  unfold by_owner. induction l as [|x l IH]; intros H.
+  - induction (seq 0 G) as [|g gs IHg]; [reflexivity|]. rewrite map_cons, total_len_cons0, IHg. reflexivity.
+  - inversion H as [|? ? Hx Hl]; subst.
+    rewrite (total_len_cons (fun g i => owner i =? N.of_nat g) x l (seq 0 G)). rewrite (IH Hl).
+    rewrite count_owner_seq. cbn [Nat.leb andb].
+    destruct (Nat.ltb_spec (N.to_nat (owner x)) (0 + G)); [reflexivity|lia].
+Qed.
+
+(* What C06_queue_complete guarantees is accepted by the executable specification [complete_b]
+   (samples are numbers; [owner] maps a sample to the goroutine that reports it). *)
+Theorem queue_complete_spec (enc : N -> option (list N)) k Q owner G h s :
+  run N enc k Q (init N) h = Some s ->
+  reports_first N false h = true ->
+  Forall (enc_ok N enc) (reports_of N h) ->
+  ph s = Done ->
+  Forall (fun x => owner x < N.of_nat G) (reports_of N h) ->
+  complete_b k owner (by_owner owner G (reports_of N h)) (acc_log s) (dropped s) (run_error N s) = true.
+Proof.
+  intros H Ho He Hd Hown.
+  destruct (queue_complete N enc k Q h s H Ho He Hd) as (_ & _ & _ & _ & _ & Hsub & Hcnt & Hblk & Herr).
+  unfold complete_b. repeat (apply andb_true_intro; split).
+  - unfold by_owner. apply (per_owner_ok_seq owner (acc_log s) (reports_of N h) Hsub G 0%nat).
+  - apply forallb_forall. intros x Hx. unfold by_owner. rewrite map_length, seq_length.
+    apply N.ltb_lt. rewrite Forall_forall in Hown. apply Hown. eapply Subseq_In; eassumption.
+  - apply N.eqb_eq. rewrite total_len_by_owner by exact Hown. exact Hcnt.
+  - rewrite Herr. destruct (dropped s =? 0) eqn:E; [reflexivity|]. apply N.eqb_refl.
+  - destruct k; [|reflexivity]. destruct (Hblk eq_refl) as [_ ->]. reflexivity.
+Qed.
